@@ -28,6 +28,19 @@ unrelated ones, one index-list object for both; the same with the result in plac
 result, where the row allows ca / cb); and, for every binary row (registers and broadcasts included), the operand WORDS related in
 these ways.  Trace_Layout17 checks that the designations recorded are in the family the event claims and judges the lanes on the
 designated operands as always.
+HUGE STRIDES AND INDEX-LIST ENTRIES: every overload with a uniform-stride array operand (input or result) and every overload with
+a per-lane index list is also called with strides / list entries built from {2^29+1, 2^30, 2^31-1, 2^31, 2^32+3} elements (one
+operand at a time at each value, the other strided / indexed operands small, equal or at another huge value; index lists: uniform
+multiples, permuted, one far entry, all entries far, descending, repeated / offset multiples; quick: 5 calls per such operand,
+thorough: 30; plus in-place calls - result IS operand a / b - where the row allows it).  The operands live in SPARSE arenas: the
+whole span (up to 7 * (2^32+3) elements) plus 2^31 elements in front of the base pointer is reserved PROT_NONE / MAP_NORESERVE and
+only the pages holding designated cells are accessible, end-aligned against an inaccessible page, plus decoy pages where a position
+narrowed to 32 bits would land ((int32) / (uint32) of k * stride, of idx[k], of the byte offset, k * (int32)stride ...), all filled
+with run-specific garbage (result arenas: complementary pre-fills) and all scanned for changes: a narrowed address gives a wrong lane
+value, a changed decoy cell or a fault - each a rejected record.  The events carry the strides, list entries, positions and extents
+as 64-bit limb words (TLC integers are 32 bit) and Trace_Layout17!OkCallW judges them with the limb forms of Layout.tla (AddrW,
+ExtentW, CellOkW, ChangedCellsW; MC_Layout: they agree with the integer forms) like any other call.  If the address range cannot be
+reserved on a machine the calls are recorded as skipped (a note), not judged.
 parcpy / parSetZero: sizes 0..64 (thorough: ..200 and larger) x thread arguments {-5,0,1,2,3,7,64,1000}: exactly the cells the
 chunk model covers change, to the source words / zero; and in the OpenMP delivery environments of vh::with_env (0 plain, 1 call
 from inside an active parallel region, 2 / 3 process-wide thread-count setting 1 / 5): sizes {0,1,2,3,5,8,13,64,1000} (thorough:
@@ -40,7 +53,7 @@ import gen_layout17 as G
 
 LEVEL_NOTE = ('TLC decides the layout algebra and the chunk arithmetic at small bounds; the table itself is a reviewed reading of the '
               'declarations (it is the specification, not derived from the bodies); conformance binds only the executed calls '
-              '(>= 40 / 400 per overload, + 12 / 100 per allowed alias mode, + the designation families of every binary overload; bulk copies in the 4 delivery environments of vh::with_env - thread limits and dynamic adjustment are not among them); partial overlaps with different address maps are outside the property.')
+              '(>= 40 / 400 per overload, + 12 / 100 per allowed alias mode, + the designation families of every binary overload, + 5 / 30 calls per strided / indexed operand with strides / index entries of 2^29+1 .. 2^32+3 elements in sparse arenas; bulk copies in the 4 delivery environments of vh::with_env - thread limits and dynamic adjustment are not among them); partial overlaps with different address maps are outside the property.')
 P = vlib.P
 S_IN = [0, 1, 3, 517, 2, 5, 64]
 S_OUT = [1, 3, 517, 2, 5, 1, 64, 0, 3]
@@ -48,6 +61,8 @@ THREADS = [-5, 0, 1, 2, 3, 7, 64, 1000]
 ENV_THREADS = [-5, 0, 1, 2, 3, 4, 7, 64]
 ENV_SIZES = [0, 1, 2, 3, 5, 8, 13, 64, 1000]
 MEM = ('contig', 'stride', 'index')
+HUGE = [2**29 + 1, 2**30, 2**31 - 1, 2**31, 2**32 + 3]      # from 2^30 on 3 * stride >= 2^31: 32-bit position arithmetic overflows / truncates
+ARR = ('stride', 'index')
 
 
 def gen_cases(table, variant, tier, seed, ci0):
@@ -131,6 +146,72 @@ def gen_des(table, variant, tier, seed, ci0):
     return out
 
 
+def gen_huge(table, variant, tier, seed, ci0):
+    """huge strides / index-list entries (sparse arenas), every row with a strided or indexed operand -> list of (ci, line).
+    A strided operand gets the value in its stride field; an indexed operand gets index mode 100 + pattern and the unit in its
+    (otherwise unused) stride field (harness/drv_layout17.cpp gen_idx_huge)."""
+    rng = vlib.Rng(seed ^ 0x406EC17 ^ (0x512 if variant == 'avx512' else 0))
+    quick = tier == 'quick'
+    out = []; ci = ci0
+    for r in table:
+        if r['variant'] != variant or not r['defined']:
+            continue
+        el = [o for o in 'abc' if r[o]['kind'] in ARR]
+        if not el:
+            continue
+        j = 0
+
+        def emit(st, im, alias):
+            nonlocal ci
+            ci += 1
+            out.append((ci, '%d C %s 0x%x %d %d %d %d %d %d %d %d %s %d' % (ci, r['id'], rng.next(), st['a'], st['b'], st['c'], im['a'], im['b'], im['c'],
+                                                                            (3 * j + j // 8) % 8, j % 5, alias, j % r['L'])))
+
+        def base():
+            return (dict(a=S_IN[j % 7], b=S_IN[(3 * j + 1) % 7], c=S_OUT[(5 * j + 2) % 9]), dict(a=j % 6, b=(5 * j + 1) % 6, c=(j + 3) % 6))
+
+        def put(st, im, o, h, pat):
+            st[o] = h
+            if r[o]['kind'] == 'index':
+                im[o] = 100 + pat % 6
+        for rep_ in range(1 if quick else 6):
+            for X in el:
+                for hi, h in enumerate(HUGE):
+                    st, im = base()
+                    for q, o in enumerate(el):
+                        if o == X:
+                            put(st, im, o, h, j + rep_)
+                        else:
+                            # the other strided / indexed operands: small, the same huge value, another huge value
+                            m = (j + q) % 3
+                            if m:
+                                put(st, im, o, h if m == 1 else HUGE[(hi + 2) % 5], j + q + 2 * rep_)
+                    emit(st, im, 'none'); j += 1
+        # result in place (one array, one address map: the operand follows the result's stride / index list)
+        for m in G.alias_modes(r):
+            if m in ('ca', 'cb') and r['c']['kind'] in ARR:
+                for hi in ([j % 5, (j + 2) % 5] if quick else list(range(5)) * 3):
+                    st, im = base()
+                    put(st, im, 'c', HUGE[hi], j)
+                    other = 'b' if m == 'ca' else 'a'
+                    if other in el and j % 2:
+                        put(st, im, other, HUGE[(hi + 1) % 5], j + 1)
+                    emit(st, im, m); j += 1
+    return out
+
+
+def _narrow(rec):
+    """a wide event (64-bit limb words) with the fields of an ordinary one, Python integers (for explain / coverage only)"""
+    if not rec.get('wide'):
+        return rec
+    r = dict(rec)
+    for o in 'abc':
+        r['s' + o] = vlib.unw64(rec['s%sw' % o]); r['e' + o] = vlib.unw64(rec['e%sw' % o])
+        r['i' + o] = [vlib.unw64(x) for x in rec['i%sw' % o]]; r['a' + o] = [vlib.unw64(x) for x in rec['a%sw' % o]]
+    r['chg'] = [x - (1 << 64) if x >> 63 else x for x in (vlib.unw64(w) for w in rec['chgw'])]
+    return r
+
+
 def gen_par(tier, seed, ci0):
     rng = vlib.Rng(seed ^ 0xC17BA5)
     sizes = list(range(0, 65)) if tier == 'quick' else list(range(0, 201)) + [255, 256, 257, 511, 1000, 1023, 1024, 1025, 4097]
@@ -165,6 +246,12 @@ def explain(rec, rows):
                 n, rec['nt'], rec.get('env', 0), ['plain call', 'call from inside an active parallel region', 'process-wide thread setting 1', 'process-wide thread setting 5'][rec.get('env', 0) % 4],
                 len(bad), bad[:10])
         r = rows[rec['id']]; L = r['L']; why = []
+        if rec.get('wide'):
+            rec = _narrow(rec)
+            why.append('huge strides / index-list entries in sparse arenas (%s)' % ', '.join(
+                '%s: %s' % (o, ('stride %d' % rec['s' + o]) if r[o]['kind'] == 'stride' else ('index list %s' % rec['i' + o])) for o in 'abc' if r[o]['kind'] in ARR))
+            if rec.get('nchg', 0) > len(rec['chg']):
+                why.append('%d cells of the result arena changed' % rec['nchg'])
         if rec.get('dlv', 'none') != 'none':
             why.append({'base': 'operands a and b given by the same base pointer', 'sep': 'operands a and b in two arrays with related strides / index lists', 'word': 'operand words related'}[rec['dlv']] +
                        ', family %s%s%s' % (rec['des'], ' lane %d' % rec['dl'] if rec['des'] == 'one' else '', ', one index-list object' if rec.get('ixo') else '') +
@@ -299,6 +386,7 @@ def run(tier, seed, replay=None):
         for v in variants:
             per[v] = gen_cases(table_run, v, tier, seed, ci); ci = per[v][-1][0]
             per[v] += gen_des(table_run, v, tier, seed, ci); ci = per[v][-1][0]
+            per[v] += gen_huge(table_run, v, tier, seed, ci); ci = per[v][-1][0]
         per['avx2'] += gen_par(tier, seed, ci)
     byci = {}
     traces = []
@@ -314,9 +402,17 @@ def run(tier, seed, replay=None):
             ck.finish(); return 2
         traces.append(tp)
     tpath = os.path.join(wd, 'trace.ndjson')
+    skips = []
     with open(tpath, 'w') as f:
         for tp in traces:
-            f.write(open(tp).read())
+            for ln in open(tp):
+                if ln.startswith('{"e":"skip"'):
+                    # the address range of a huge stride could not be reserved on this machine: recorded, not judged
+                    skips.append(json.loads(ln))
+                else:
+                    f.write(ln)
+    if skips:
+        ck.note('huge strides / index-list entries not exercised in %d call(s) of %d overload(s): %s' % (len(skips), len({x['id'] for x in skips}), skips[0].get('why')))
     v = validate_trace(wd, 'Trace_Layout17', 'Trace_Layout17.cfg', tpath, min_chunk=150)
     model_result()
     ck.add_validation(v, 'calls of %d overloads + parcpy/parSetZero (%d cases)' % (len([r for r in table if r['defined'] and r['variant'] in variants]), len(byci)))
@@ -345,10 +441,18 @@ def run(tier, seed, replay=None):
             ck.note('rejected record of %s not reproduced on re-run (case %s)' % (cls, line))
     # ---- coverage
     cnt = {}; acnt = {}; dcnt = {}; drows = {}; ecnt = {}
+    hcnt = dict(calls=0, in_place=0); hrows = set(); hvals = {}
     for ln in open(tpath):
         if ln.startswith('{"e":"call"') or ln.startswith('{"e":"crash"'):
             j = json.loads(ln)
             i = j.get('id'); cnt[i] = cnt.get(i, 0) + 1
+            if j.get('wide'):
+                hcnt['calls'] += 1; hcnt['in_place'] += 1 if j['alias'] != 'none' else 0; hrows.add(i)
+                for o in 'abc':
+                    big = [x for x in [vlib.unw64(j['s%sw' % o])] + [vlib.unw64(w) for w in j['i%sw' % o]] if x >= 2 ** 29]
+                    if big:
+                        k = '%s.%s' % ('result' if o == 'c' else 'input', rows[i][o]['kind'] if i in rows else '?')
+                        hvals[k] = hvals.get(k, 0) + 1
             if j.get('alias', 'none') != 'none':
                 acnt[j['alias']] = acnt.get(j['alias'], 0) + 1
             if j.get('dlv', 'none') != 'none':
@@ -358,6 +462,8 @@ def run(tier, seed, replay=None):
         elif ln.startswith('{"e":"par"'):
             j = json.loads(ln)
             ecnt[str(j.get('env', 0))] = ecnt.get(str(j.get('env', 0)), 0) + 1
+    ck.cov['huge_stride_calls'] = dict(hcnt, rows=len(hrows), rows_with_strided_or_indexed_operand=len([r for r in table if r['defined'] and r['variant'] in variants and any(r[o]['kind'] in ARR for o in 'abc')]),
+                                       values=[str(h) for h in HUGE], operands=hvals, skipped=len(skips), skipped_why=skips[0].get('why') if skips else '')
     ck.cov['alias_mode_calls'] = acnt
     ck.cov['designation_family_calls'] = dcnt
     ck.cov['designation_family_rows'] = {k: len(v) for k, v in drows.items()}
